@@ -387,7 +387,35 @@ func (fr *frame) scanCallMods(m *loopMods, info *types.Info, call *ast.CallExpr,
 		return
 	}
 	if c := reg.contractFor(fn); c != nil && !c.Inline {
+		fr.recvAliasPrefix = ""
+		if f, ok := fun.(*ast.SelectorExpr); ok {
+			if sel, ok := info.Selections[f]; ok && sel.Kind() == types.MethodVal && len(sel.Index()) > 1 {
+				// promoted method: the receiver is an embedded struct; find its heap class prefix
+				t := info.TypeOf(f.X)
+				prefix := ""
+				for _, idx := range sel.Index()[:len(sel.Index())-1] {
+					if pt, isPtr := t.Underlying().(*types.Pointer); isPtr {
+						prefix = structClass(pt.Elem())
+						t = pt.Elem()
+					}
+					stt, ok := t.Underlying().(*types.Struct)
+					if !ok {
+						prefix = ""
+						break
+					}
+					if prefix != "" {
+						prefix += "." + stt.Field(idx).Name()
+					}
+					t = stt.Field(idx).Type()
+				}
+				if _, isPtr := t.Underlying().(*types.Pointer); !isPtr {
+					fr.recvAliasPrefix = prefix
+					fr.recvAliasType = t
+				}
+			}
+		}
 		fr.contractMods(m, c, reg.pkgs[fn.Pkg().Path()], fn.Type().(*types.Signature), fn)
+		fr.recvAliasPrefix = ""
 		return
 	}
 	if decl := reg.funcDecls[full]; decl != nil && decl.Body != nil && depth < maxInlineDepth {
@@ -415,7 +443,12 @@ func (fr *frame) contractMods(m *loopMods, c *FuncContract, pkg *packagesPackage
 		env.pkg = fr.pkg
 	}
 	if sig.Recv() != nil && c.RecvName != "" {
-		env.vars[c.RecvName] = freshValue(sig.Recv().Type(), "scan")
+		rv := freshValue(sig.Recv().Type(), "scan")
+		if fr.recvAliasPrefix != "" {
+			rv = &Value{K: VScalar, T: sig.Recv().Type(), S: mkVar(freshName("scanalias"), SInt),
+				Alias: &lvalue{kind: lvHeap, T: fr.recvAliasType, ref: mkVar(freshName("scanref"), SInt), prefix: fr.recvAliasPrefix}}
+		}
+		env.vars[c.RecvName] = rv
 	}
 	shift := 0
 	if sig.Recv() != nil && c.RecvName == "" && c.External != "" && len(c.Params) > 0 {
